@@ -78,7 +78,9 @@ class LoopModel:
             return s["id"], s["name"], None
         return None, None, None
 
-    def run(self, v, st=None, upto_match_only=False, bind=None, keep=None):
+    def run(self, v, st=None, upto_match_only=False, bind=None, keep=None, fields=None):
+        self._fields = fields or {}
+        self.ev.insn_override = dict(self._fields)
         """evaluate the loop body with the opcode forced to v -> list of (value, St)"""
         ev = self.ev
         st = st or symex.St()
@@ -124,7 +126,8 @@ class LoopModel:
         if fld is None:
             return s.set(key, T.K(8, v))
         if isinstance(cur, tuple) and cur and cur[0] == "struct":
-            nf = tuple((k, (T.K(8, v) if k == fld else x)) for k, x in cur[3])
+            extra = getattr(self, "_fields", {})
+            nf = tuple((k, (T.K(8, v) if k == fld else extra.get(k, x))) for k, x in cur[3])
             return s.set(key, ("struct", cur[1], cur[2], nf))
         # scrutinee struct not bound yet (e.g. a parameter): bind a symbolic struct
         val = self.ev.sym_for(vname, strip(self.match.node["scrut"]["e"] if "e" in self.match.node["scrut"] else self.scrut).get("ty", "ebpf::Insn"))
